@@ -82,7 +82,9 @@ class Engine:
                      "util / io / signal", "scratch files on tmpfs"],
             "simulated": ["time.sleep + threading.enumerate in cmdline -> "
                           "virtual clock / scheduler", "sys.stdin.buffer -> "
-                          "SimPipe", "queue / Thread / datetime / print / "
+                          "SimPipe (with a real descriptor of an in-memory "
+                          "file for code that goes below the file object)",
+                          "signal.signal(SIGINT, ...) -> kept by the simulator", "queue / Thread / datetime / print / "
                           "wave+open proxies as in engine pipeline",
                           "Ctrl-C -> KeyboardInterrupt raised out of the "
                           "simulated sleep"],
